@@ -6,7 +6,8 @@ from .gens import *
 PROP = "C16"
 LEAN_MODULE = "RSV.Props.C16"
 RULE = ("proof: in the API model every slice/array index computed from caller-controlled values carries an explicit bounds check "
-        "whose failure is the outcome `panic`; C16_* prove that no argument tuple reaches `panic`, which documented error each "
+        "whose failure is the outcome `panic`, and the slice windows of the kernels (Encode/Verify/EncodeIdx/Update/both passes of "
+        "Reconstruct, matrix and Leopard) are evaluated on the argument lengths and capacities with the same outcome; C16_* prove that no argument tuple reaches `panic`, which documented error each "
         "malformed shape yields, and that every encoder `New` returns satisfies `usable` (Leopard indices stay inside the field), "
         "for all 64-bit (d,p). Correspondence: grammar-generated calls of every exported method with valid and invalid shapes "
         "(shard counts, nil/empty/unequal shards, mask lengths, indices, negative sizes) and (d,p,options) over the whole int range; "
